@@ -220,16 +220,18 @@ def run(res, tier, seed):
     # ---- an ignored multi-line construct: `.macro … .endmacro` (unsupported, skipped as a whole).
     # The construct must be named by a diagnostic on its first line, whether or not it is closed
     # before the file ends, and the lines around it must parse as if it were not there.
-    minputs, mmeta = [], []
+    minputs, mmeta, mextra = [], [], {}
     for _ in range(30 if tier == "quick" else 1500):
         before = one_per_line(rng, rng.randrange(1, 6))
         after = one_per_line(rng, rng.randrange(0, 5))
         body = one_per_line(rng, rng.randrange(0, 4))
         closed = rng.random() < 0.5
         head = rng.choice([".macro foo", ".macro push_all", "  .macro m2 x y", ".MACRO big", ".macro inc(%r)", ".macro add3 (%a, %b)"])
+        badline = None
         if "%" in head or rng.random() < 0.3:
             # RARS's parameter syntax and other text the lexer cannot read: part of the skipped body like the rest
-            body = body + [rng.choice(["    addi %r, %r, 1", "    li %a, 7 ?", "    print_str (\"x\")", "    sw %b, 0(sp) @"])]
+            badline = rng.choice(["    addi %r, %r, 1", "    li %a, 7 ?", "    print_str (\"x\")", "    sw %b, 0(sp) @"])
+            body = body + [badline]
             rng.shuffle(body)
         # both spellings close it: RARS's `.end_macro` and the `.endmacro` this project started with
         close = [rng.choice([".endmacro", "  .endmacro", ".ENDMACRO", ".end_macro", "\t.end_macro", ".End_Macro"])] \
@@ -244,15 +246,21 @@ def run(res, tier, seed):
         if rng.random() < 0.3:
             bt = '.include "inc.s"\n    li a7, 10\n    ecall\n'
             minputs += [[("base.s", bt), ("inc.s", t1)], [("base.s", bt), ("inc.s", t0)]]
-            mmeta.append(("1", before, region, after, closed))
+            mmeta.append(("1", before, region, after, closed, len(minputs) - 2))
         else:
             minputs += [[("m.s", t1)], [("m.s", t0)]]
-            mmeta.append(("0", before, region, after, closed))
+            mmeta.append(("0", before, region, after, closed, len(minputs) - 2))
+        if badline is not None and "%" not in head and '"' not in badline:
+            # containment inside the body: the file without the unreadable body line (compared line by line below)
+            qb = region.index(badline)
+            t2 = nl.join(before + region[:qb] + region[qb + 1:] + after) + fin
+            minputs.append([(minputs[-1][-1][0], t2)] if len(minputs[-1]) == 1 else [("base.s", bt), ("inc.s", t2)])
+            mextra[len(mmeta) - 1] = (len(minputs) - 1, qb)
     mimpl, _, mbad = correspondence("parse", minputs)
     hit["macro_regions"] = len(mmeta)
     hit["macro_unterminated"] = sum(1 for m in mmeta if not m[4])
-    for j, (fidx, before, region, after, closed) in enumerate(mmeta):
-        a1, a0 = mimpl[2 * j], mimpl[2 * j + 1]
+    for j, (fidx, before, region, after, closed, at) in enumerate(mmeta):
+        a1, a0 = mimpl[at], mimpl[at + 1]
         it1, it0 = items_by_line(a1, 2), items_by_line(a0, 2)
         what = None
         k = len(before)
@@ -278,9 +286,23 @@ def run(res, tier, seed):
                 what = what or (f"line {k + len(region) + q + 1} {after[q]!r} after a closed macro definition is "
                                 f"parsed differently: {it1.get((fidx, k + len(region) + q), [])} vs "
                                 f"{it0.get((fidx, k + q), [])}")
+        if j in mextra:
+            at2, qb = mextra[j]
+            it2 = items_by_line(mimpl[at2], 2)
+            total = len(before) + len(region) + len(after)
+            for ln in range(total):
+                if ln == k + qb:
+                    continue
+                ln2 = ln if ln < k + qb else ln - 1
+                strip = lambda ds: [re.sub(r":\d+:\d+:\d+-\d+:\d+:\d+@\d+", "", d) for d in ds]
+                if strip(it1.get((fidx, ln), [])) != strip(it2.get((fidx, ln2), [])):
+                    what = what or (f"the unreadable line {k + qb + 1} {region[qb]!r} inside a macro definition is not "
+                                    f"contained: line {ln + 1} is parsed differently from the file without it "
+                                    f"({it1.get((fidx, ln), [])[:2]} vs {it2.get((fidx, ln2), [])[:2]})")
+                    break
         if what and first is None:
-            first = {"what": what, "files": minputs[2 * j],
-                     "replay_cmd": "echo '%s' | %s" % (pipe_req("parse", minputs[2 * j]), RVH_DEBUG)}
+            first = {"what": what, "files": minputs[at],
+                     "replay_cmd": "echo '%s' | %s" % (pipe_req("parse", minputs[at]), RVH_DEBUG)}
     bad_corr = bad_corr or mbad
     inputs = inputs + minputs
     res.cov["evaluations"] = len(inputs)
